@@ -29,7 +29,7 @@ RULE = (
 )
 ASSUMPTIONS = ["overlay semantics re-implemented independently of confectioner.mix (sections merged key by key, lists and scalars replaced)"]
 FLOORS = {"wrapper_cases": (1500, 40000), "dataset_preset_cases": (800, 20000), "derivative_cases": (800, 20000),
-          "snapshots_checked": (8000, 200000), "overlay_mattered": (500, 10000), "inplace_history_steps": (3000, 80000)}
+          "snapshots_checked": (8000, 200000), "overlay_mattered": (500, 10000), "inplace_history_steps": (3000, 80000), "prefix_named_key_steps": (190, 190)}
 SHARDS_QUICK = 4
 
 
@@ -298,7 +298,28 @@ def inplace_history_case(ctx, r):
             ctx.nontrivial(spec_hash(["inplace", prog, wrappers, edits]))
 
 
+def prefix_named_keys(ctx):
+    """Derivatives of ONE dataset share its store; what keeps their values apart is the merged dictionary alone.
+    Option names that are string prefixes of each other (A / AB, S.X / S.XL) are the adversarial alphabet for that."""
+    O = lambda key, dv: {"k": "opt", "key": key, "dk": "const", "dv": dv}  # noqa: E731
+    for callback in (None, "c1"):
+        d = {"args": [["a", O("A", 0)], ["ab", O("AB", 0)], ["x", O("S.X", 0)], ["xl", O("S.XL", "m")], ["xy", O("S.XY", None)]]}
+        if callback:
+            d["callback"] = callback
+        for chain in ([["P", {"S": {"XL": "km"}}]], [["D", {"S": {"XL": "km"}}]], [["P", {"AB": 5}]], [["D", {"AB": 5}]],
+                      [["D", {"S": {"XL": "ft"}}], ["P", {"S": {"XY": 1}}]], [["P", {"AB": 1}], ["P", {"S": {"XL": "mi"}}], ["D", {"A": 7}]]):
+            prog = {"datasets": {"1": copy.deepcopy(d)}, "root": {"k": "ds", "id": "1", "chain": chain}}
+            hist = [{"S": {"X": 2}}, {"S": {"X": 2, "XL": "yd"}}, {"A": 1}, {"A": 1, "AB": 7}, {"A": 1, "AB": 5, "S": {"X": 2, "XL": "km"}},
+                    {"S": {"X": 2, "XY": 0}}, {"S": {"X": 2}}, {}]
+            for flip in (False, True):
+                n0 = ctx.counters.get("derivative_cases", 0)
+                derivative_compare(ctx, prog, "1", chain, hist, flip)
+                ctx.count("prefix_named_key_steps", ctx.counters.get("derivative_cases", 0) - n0)
+
+
 def run(ctx):
+    if ctx.shard == 0:
+        prefix_named_keys(ctx)
     n = ctx.n(900, 24000)
     for i in range(n):
         r = case_rng(ctx, i)
